@@ -1,6 +1,7 @@
 import XrsVerif.Proofs.Polygonize
 import XrsVerif.Proofs.PolygonizeOrbit
 import XrsVerif.Proofs.PolygonizeRegions
+import XrsVerif.Proofs.PolygonizeLossless
 /-
   C15 -- polygonize is lossless.
 
@@ -159,6 +160,81 @@ theorem lossless_partial (nx ny : Nat) (regs : Nat → Nat) (ij : Nat) (hole : B
   | none => rw [hf] at h; cases h
   | some tr => exact ⟨tr, rfl, ring_closed_rectilinear nx ny regs ij hole tr hf⟩
 
+/-- region ids are first-pixel ranks: a pixel with id `r + 1 ≥ 2` is preceded (scan order) by a pixel with
+    id `r`; so `column[k]` is the value of the first pixel of region `k + 1` -/
+theorem region_ids_first_pixel_ranks {V : Type} (nx ny : Nat) (conn8 : Bool) (close : V → V → Bool)
+    (values : Nat → V) (mask : Nat → Bool) (hnx : 0 < nx)
+    (hsymm : ∀ a b, close a b = true → close b a = true)
+    (htrans : ∀ a b c, close a b = true → close b c = true → close a c = true)
+    {ij r : Nat} (hij : ij < nx * ny) (hr : 1 ≤ r)
+    (h : regionId nx ny conn8 close values mask ij = r + 1) :
+    ∃ p, p < ij ∧ regionId nx ny conn8 close values mask p = r :=
+  regionId_ranked nx ny conn8 close values mask hnx hsymm htrans hij hr h
+
+/-- **Polygonize is lossless: cell assignment.**  For every raster size, values, mask and connectivity
+    (closeness reflexive, symmetric, transitive: integer rasters) `scan` succeeds, returns as many values as
+    polygons, and assigning each pixel centre `(X + ½, Y + ½)` to the polygons whose exterior ring contains it
+    and none of whose hole rings does (`inPolygon`: even-odd rule on the returned, vertex-compressed rings --
+    the very test `losslessB` uses) puts
+    * every masked pixel in no polygon,
+    * every unmasked pixel in exactly one polygon, number `regionId − 1`, whose column entry is close to
+      the pixel's value. -/
+theorem lossless_cells {V : Type} (nx ny : Nat) (conn8 : Bool) (close : V → V → Bool)
+    (values : Nat → V) (mask : Nat → Bool) (hnx : 0 < nx) (hrefl : ∀ a, close a a = true)
+    (hsymm : ∀ a b, close a b = true → close b a = true)
+    (htrans : ∀ a b c, close a b = true → close b c = true → close a c = true) :
+    let sc := scan nx ny conn8 close values mask
+    sc.ok = true ∧ sc.column.length = sc.polys.length ∧
+    ∀ X Y : Nat, X < nx → Y < ny →
+      (mask (X + Y * nx) = false →
+        ∀ k, k < sc.polys.length → inPolygon (sc.polys.getD k []) (X : Int) (Y : Int) = false) ∧
+      (mask (X + Y * nx) = true →
+        ∃ k, k < sc.polys.length ∧ k + 1 = regionId nx ny conn8 close values mask (X + Y * nx) ∧
+          (∀ k', k' < sc.polys.length →
+            (inPolygon (sc.polys.getD k' []) (X : Int) (Y : Int) = true ↔ k' = k)) ∧
+          ∃ v, sc.column.reverse[k]? = some v ∧ close v (values (X + Y * nx)) = true) :=
+  scan_cells_lossless nx ny conn8 close values mask hnx hrefl hsymm htrans _ rfl
+
+/-- **Even-odd form.**  For every polygon `k` and every pixel of the raster: the total number of ring edges
+    of polygon `k` (exterior and holes together) crossed by the ray from the pixel centre is odd exactly
+    when the pixel belongs to region `k + 1`; and this agrees with "inside the exterior, inside no hole". -/
+theorem lossless_even_odd {V : Type} (nx ny : Nat) (conn8 : Bool) (close : V → V → Bool)
+    (values : Nat → V) (mask : Nat → Bool) (hnx : 0 < nx)
+    (hsymm : ∀ a b, close a b = true → close b a = true)
+    (htrans : ∀ a b c, close a b = true → close b c = true → close a c = true) :
+    let sc := scan nx ny conn8 close values mask
+    ∀ k, k < sc.polys.length → ∀ X Y : Nat, X < nx → Y < ny →
+      (((sc.polys.getD k []).map (fun ring => crossings ring (X : Int) (Y : Int))).sum % 2 = 1 ↔
+        regionId nx ny conn8 close values mask (X + Y * nx) = k + 1) ∧
+      (inPolygon (sc.polys.getD k []) (X : Int) (Y : Int) = true ↔
+        regionId nx ny conn8 close values mask (X + Y * nx) = k + 1) := by
+  intro sc k hk X Y hX hY
+  obtain ⟨_, h2, _, _, _, h6⟩ := scan_regions_lossless nx ny conn8 close values mask hnx hsymm htrans
+  have hk' : k < (scan nx ny conn8 close values mask).regionDone := by rw [← h2]; exact hk
+  obtain ⟨a, b⟩ := h6 k hk' X Y hX hY
+  constructor
+  · show ((((scan nx ny conn8 close values mask).polys.getD k []).map _).sum % 2 = 1 ↔ _)
+    rw [b]; split <;> simp_all
+  · show (inPolygon ((scan nx ny conn8 close values mask).polys.getD k []) _ _ = true ↔ _)
+    rw [a, beq_iff_eq]
+
+/-- **The polygons are exactly the connected regions.**  Every polygon contains an unmasked pixel, and two
+    unmasked pixels lie in a common polygon iff they are joined by a chain of adjacent (4 / 8) unmasked
+    pixels with close values. -/
+theorem polygons_are_components {V : Type} (nx ny : Nat) (conn8 : Bool) (close : V → V → Bool)
+    (values : Nat → V) (mask : Nat → Bool) (hnx : 0 < nx)
+    (hsymm : ∀ a b, close a b = true → close b a = true)
+    (htrans : ∀ a b c, close a b = true → close b c = true → close a c = true) :
+    let sc := scan nx ny conn8 close values mask
+    (∀ k, k < sc.polys.length → ∃ X Y : Nat, X < nx ∧ Y < ny ∧ mask (X + Y * nx) = true ∧
+      inPolygon (sc.polys.getD k []) (X : Int) (Y : Int) = true) ∧
+    (∀ X Y X' Y' : Nat, X < nx → Y < ny → X' < nx → Y' < ny → mask (X + Y * nx) = true →
+      mask (X' + Y' * nx) = true →
+      ((∃ k, k < sc.polys.length ∧ inPolygon (sc.polys.getD k []) (X : Int) (Y : Int) = true ∧
+          inPolygon (sc.polys.getD k []) (X' : Int) (Y' : Int) = true) ↔
+        ConnP nx conn8 close values mask (nx * ny) (X + Y * nx) (X' + Y' * nx))) :=
+  scan_polygons_components nx ny conn8 close values mask hnx hsymm htrans _ rfl
+
 /-! ### non-vacuity, and the full statement evaluated on concrete rasters -/
 
 def eqI (a b : Int) : Bool := a == b
@@ -203,5 +279,17 @@ example : calculateRegions 3 2 false eqI (fun ij => if ij = 1 then 0 else 1) (fu
 /-- the start states of `lossless_partial` exist: exterior of the ring region, and its hole -/
 example : Valid (inRegion 3 3 (fun ij => if ij = 4 then 2 else 1) 1) ⟨0, 0, .E⟩ := by decide
 example : Valid (inRegion 3 3 (fun ij => if ij = 4 then 2 else 1) 1) ⟨1, 0, .W⟩ := by decide
+
+/-- the hypotheses of `lossless_cells` hold for integer equality on the 3×3 ring raster, and its
+    conclusion there is not vacuous: the centre pixel lies in polygon 1 only, a border pixel in polygon 0 only -/
+example : (0 < 3) ∧ (∀ a : Int, eqI a a = true) := ⟨by decide, fun a => by simp [eqI]⟩
+example :
+    let sc := scan 3 3 false eqI ringV (fun _ => true)
+    sc.polys.length = 2 ∧ inPolygon (sc.polys.getD 1 []) 1 1 = true ∧ inPolygon (sc.polys.getD 0 []) 1 1 = false ∧
+      inPolygon (sc.polys.getD 0 []) 0 2 = true ∧ regionId 3 3 false eqI ringV (fun _ => true) 4 = 2 := by
+  decide +kernel
+example := lossless_cells 3 3 false eqI ringV (fun _ => true) (by decide) (fun a => by simp [eqI])
+  (fun a b h => by simp only [eqI, beq_iff_eq] at *; exact h.symm)
+  (fun a b c h1 h2 => by simp only [eqI, beq_iff_eq] at *; exact h1.trans h2)
 
 end XrsVerif.C15
